@@ -793,3 +793,126 @@ def rule_count_approx(ctx, rep, rid):
                 ok = okb
         which = "before" if k == 0 else "after"
         rep.check(ok, rid, "count_nodes.approx-%s.loop" % which, "sums split counters 0 .. split_count_mask", "the approximation loop does not run i = 0, 1, ..., split_count_mask (index or bound changed): counters are skipped / memory outside the array is read", [f.name])
+
+
+def _feasible_blocks(f, env):
+    """blocks reachable from the entry through edges none of whose atoms is false under env (sa/ceval.py; unknown = feasible)"""
+    from .. import ceval
+    seen, work = {0}, [0]
+    while work:
+        b = work.pop()
+        for s_ in f.blocks[b].succ:
+            if s_ in seen:
+                continue
+            if any(ceval.truth(a, env) is False for a in ir.edge_atoms(f, b, s_)):
+                continue
+            seen.add(s_)
+            work.append(s_)
+    return seen
+
+
+def rule_mm_cases(ctx, rep, rid):
+    """per allocator plugin, alloc_bucket_table(order) and free_bucket_table(order) treat the same orders the same way.  Orders
+    fall into classes (0; 1 .. min_alloc_buckets_order, already covered by the level-0 allocation; above) and, for the mmap
+    plugin, small (min == max, calloc'ed) versus large tables.  For one representative per class the actions on the feasible
+    paths are collected (branch predicates evaluated, nothing executed) and paired: calloc <-> free, map + populate <-> unmap,
+    populate <-> discard, nothing <-> nothing.  A free that acts on an order its alloc did nothing for releases memory still
+    in use (or leaks the other one); an alloc that skips an order leaves the level without memory."""
+    import itertools
+    m = ctx.mod("cds", "perfn")
+    PAIR = {frozenset(): frozenset(), frozenset(["calloc"]): frozenset(["free"]), frozenset(["memory_map", "memory_populate"]): frozenset(["memory_unmap"]),
+            frozenset(["memory_populate"]): frozenset(["memory_discard"])}
+
+    def actions(f, env):
+        acts = set()
+        for b in _feasible_blocks(f, env):
+            for i in f.blocks[b].insts:
+                if i.op == "icall":
+                    e = ir.expr(f, i.d["fp"])
+                    if e[0] == "load" and e[1].endswith("cds_lfht_alloc.calloc"):
+                        acts.add("calloc")
+                    if e[0] == "load" and e[1].endswith("cds_lfht_alloc.free"):
+                        acts.add("free")
+                if i.op == "call" and i.callee in ("memory_map", "memory_populate", "memory_discard", "memory_unmap"):
+                    acts.add(i.callee)
+                if i.op == "call" and i.callee == "poison_free":
+                    acts.add("free")
+        return frozenset(acts)
+    n = 0
+    for gname, g in m.globals.items():
+        init = g.get("init")
+        if not init or init[0] != "struct" or init[1] != "cds_lfht_mm_type":
+            continue
+        slots = dict((k.split(".")[-1], v) for k, v in init[2])
+        af, ff = m.fn(slots["alloc_bucket_table"][1]), m.fn(slots["free_bucket_table"][1])
+        if af is None or ff is None:
+            raise Broken("mm functions of %s not defined" % gname)
+        rep.touch(af)
+        rep.touch(ff)
+        kind = gname.split("_")[-1]
+        bad = []
+        some = False
+        for order, small in itertools.product((0, 1, 2, 3, 5), (True, False)):
+            env = {("arg", 1): order, ("load", "arg0.cds_lfht.min_alloc_buckets_order"): 2, ("load", "arg0.cds_lfht.min_nr_alloc_buckets"): 4,
+                   ("load", "arg0.cds_lfht.max_nr_buckets"): 4 if small else 1024}
+            a, fr = actions(af, env), actions(ff, env)
+            n += 1
+            if a:
+                some = True
+            if a not in PAIR:
+                raise Broken("%s allocator: unrecognised allocation actions %s for order %d" % (kind, sorted(a), order))
+            if PAIR[a] != fr:
+                bad.append("order %d%s: alloc does %s, free does %s" % (order, " (small table)" if small and kind == "mmap" else "", sorted(a) or "nothing", sorted(fr) or "nothing"))
+            # orders above the minimum always get memory (except small mmap tables, which are allocated whole at order 0)
+            if order > 2 and not a and not (kind == "mmap" and small):
+                bad.append("order %d: nothing is allocated" % order)
+            if order == 0 and not a:
+                bad.append("order 0: nothing is allocated")
+        pat.require(some, "%s allocator: no allocation action recognised" % kind)
+        rep.check(not bad, rid, kind + ".alloc-free-agree", "alloc and free of the %s plugin act on the same order classes with matching actions" % kind,
+                  "%s plugin: %s" % (kind, "; ".join(bad[:3])), [af.name, ff.name])
+    pat.require(n >= 30, "mm case table: only %d cases" % n)
+    # chunk plugin: an order above the minimum covers chunks len .. 2*len - 1 with len = 1 << (order - 1 - min_order); alloc and
+    # free walk the same range, upwards
+    import re as _re
+    from .. import linear
+    g = m.globals.get("cds_lfht_mm_chunk")
+    if g is None:
+        raise Broken("cds_lfht_mm_chunk vanished")
+    slots = dict((k.split(".")[-1], v) for k, v in g["init"][2])
+    shape = {}
+    for role in ("alloc_bucket_table", "free_bucket_table"):
+        f = m.fn(slots[role][1])
+        phs = [i for i in f.all_insts() if i.op == "phi" and any(ir.expr(f, v, 3) == ("bin", "add", ("phi", i.id), ("c", 1)) or ir.expr(f, v, 3) == ("bin", "add", ("phi", i.id), ("c", -1)) for v, _b in i.d["inc"])]
+        if len(phs) != 1:
+            raise Broken("chunk %s: chunk loop not recognised" % role)
+        ph = phs[0]
+        incs = [ir.expr(f, v, 8) for v, _b in ph.d["inc"]]
+        init = [x for x in incs if not ir.expr_contains(x, lambda z: z == ("phi", ph.id))]
+        step = [x for x in incs if x not in init]
+        bnd = [(t, s_, a) for t, s_, a in pat.branch_edges_on(f, lambda a: len(a) == 3 and a[1] == ("phi", ph.id))]
+        norm = lambda e: _re.sub(r"#\d+", "#", ir.expr_str(e))
+        cont = [a for t, s_, a in bnd if s_ in [c for c in f.sccs() if ph.blk.id in c][0] and s_ != ph.blk.id] or [a for t, s_, a in bnd if a[0] in ("ult", "ule")]
+        shape[role] = (sorted(map(norm, init)), sorted(map(norm, step)), sorted(set((a[0], norm(a[2])) for t, s_, a in bnd)))
+        def is_len(x):
+            """x == 1 << (order - 1 - min_alloc_buckets_order), whatever way the exponent is written"""
+            if not (x[0] == "bin" and x[1] == "shl" and x[2] == ("c", 1)):
+                return False
+            n_ = linear.norm(x[3])
+            return n_ is not None and n_.get(1, 0) == -1 and n_.get(("t", "arg1"), 0) == 1 and any(isinstance(t_, tuple) and t_[0] == "ld" and t_[1].endswith("min_alloc_buckets_order") and c_ == -1 for t_, c_ in n_.items()) and len(n_) == 3
+
+        def is_2len(x):
+            if x[0] == "bin" and x[1] == "mul":
+                return (x[2] == ("c", 2) and is_len(x[3])) or (x[3] == ("c", 2) and is_len(x[2]))
+            if x[0] == "bin" and x[1] == "shl" and x[3] == ("c", 1):
+                return is_len(x[2])
+            if x[0] == "bin" and x[1] == "add":
+                return is_len(x[2]) and is_len(x[3])
+            return False
+        okshape = len(init) == 1 and is_len(init[0]) and [norm(x) for x in step] == ["(phi# add 1)"] and set(a[0] for t, s_, a in bnd) == {"ult", "uge"} and all(is_2len(a[2]) for t, s_, a in bnd)
+        shape[role] = ("len" if len(init) == 1 and is_len(init[0]) else sorted(map(norm, init)), sorted(map(norm, step)), sorted(set((a[0], "2*len" if is_2len(a[2]) else norm(a[2])) for t, s_, a in bnd)))
+        # polarity: the `ult` edge enters the body
+        body_ok = all((f.reach([f.blocks[s_].insts[0]], [i for i in f.all_insts() if i.op == "icall"], include_start=True, avoid=lambda i, t=t: i is t)[0] is not None) == (a[0] == "ult") for t, s_, a in bnd)
+        rep.check(okshape and body_ok, rid, "chunk.%s.range" % role.split("_")[0], "%s walks chunks len, len+1, ..., 2*len-1 (len = 1 << (order - 1 - min_order))" % role,
+                  "%s walks chunks from %s in steps %s while %s: chunks of another order are (re)allocated / freed, or none is" % (role, shape[role][0], shape[role][1], shape[role][2]), [f.name])
+    rep.check(shape["alloc_bucket_table"] == shape["free_bucket_table"], rid, "chunk.alloc=free.range", "alloc and free walk the same chunk range", "alloc walks %s, free walks %s" % (shape["alloc_bucket_table"], shape["free_bucket_table"]), [])
